@@ -31,7 +31,7 @@ def _strategy(shapes):
         dim_a = list(draw(st.permutations(rest))) if variant == "explicit" else sorted(rest)
         diag = draw(st.sampled_from([False, False, True]))
         case = {"D": D, "R": R, "N": N, "dim_b": dim_b, "dim_a": dim_a, "variant": variant, "diag": diag,
-                "p": draw(gen.measure_params("diag_pdf" if diag else "pdf", R, D, draw(st.sampled_from([10.0, 100.0])), extreme="wide" if D >= 17 else True)),
+                "p": draw(gen.measure_params("diag_pdf" if diag else "pdf", R, D, draw(st.sampled_from([10.0, 100.0])), extreme="wide" if D >= 17 else True, hetero=True)),
                 "upd": draw(gen.maybe_update("diag_pdf" if diag else "pdf", R, D)),
                 "x": draw(gen.arr((N, D), -3, 3)),
                 # a second, different conditioning set queried on the same object afterwards
